@@ -259,6 +259,10 @@ class QuantityMachine(Machine):
             kind = "decimal"
         op = {"op": "new", "value": self._gen_value(rng, kind), "kind": kind, "unit": unit,
               "fam": fam, "abse": None, "rele": None}
+        if kind == "array" and rng.random() < 0.4:
+            # the unit handed over as an object instead of text (constructors treat the
+            # magnitude differently then)
+            op["unit_form"] = rng.choice(["baseunits", "quantity"])
         if cfg["errors"] and kind != "decimal" and rng.random() < 0.4:
             if rng.random() < 0.5:
                 op["abse"] = rng.choice([0.1, 0.5, 0.01])
@@ -292,6 +296,10 @@ class QuantityMachine(Machine):
         r = rng.random()
         a = self._pick(rng)
         fam = self.pool[a]["fam"]
+        if rng.random() < 0.04:
+            # the caller writes into an array it owns: the one it built a quantity from, or
+            # the one value() handed out (which is that quantity's own storage)
+            return {"op": "poke", "a": a, "how": rng.choice(["src", "value", "value"])}
         if rng.random() < 0.03:
             # a product holding a temporary custom unit is rebased after that unit's scope has
             # ended: the method fails on the unknown unit after it has merged the others
@@ -447,6 +455,10 @@ class QuantityMachine(Machine):
             if same:
                 return {"op": rng.choice(["conv_to_member", "conv_to_quantity"]), "a": a,
                         "b": rng.choice(same)}
+        if self.pool and rng.random() < 0.04:
+            cands = [i for i, e_ in enumerate(self.pool) if "src" in e_]
+            if cands:
+                return {"op": "poke_src", "a": rng.choice(cands)}
         if self.pool and rng.random() < 0.06:
             # derived objects that share state with a pool member are rebased or converted in
             # place; the member's own conversions must not notice
@@ -487,6 +499,8 @@ class QuantityMachine(Machine):
             val = [scalar() for _ in range(rng.randint(1, 4))] if kind == "array" else scalar()
             op = {"op": "new_linear", "terms": terms, "style": rng.randint(0, 1), "value": val,
                   "kind": kind, "abse": None}
+            if kind == "array" and rng.random() < 0.4:
+                op["unit_form"] = rng.choice(["baseunits", "quantity", "member"])
             if cfg["errors"] and rng.random() < 0.4:
                 op["abse"] = rng.choice([0.1, 0.5])
             return op
@@ -605,7 +619,12 @@ class QuantityMachine(Machine):
         if kind == "new":
             v, kw = self._mk(op)
             try:
-                q = Quantity(v, op["unit"], **kw)
+                unit = op["unit"]
+                if op.get("unit_form") == "baseunits" and unit:
+                    unit = Quantity(1, unit).baseunits
+                elif op.get("unit_form") == "quantity" and unit:
+                    unit = Quantity(1, unit)
+                q = Quantity(v, unit, **kw)
             except Exception as e:
                 return "new_failed", type(e).__name__
             k = self._add(q, op.get("fam"))
@@ -618,6 +637,8 @@ class QuantityMachine(Machine):
             return self._stale_rebase(op)
         if not self.pool:
             return "skip", None
+        if kind == "poke":
+            return self._poke_c07(op)
         if kind == "follow":
             op = self._resolve_follow(op)
             if op is None:
@@ -816,6 +837,47 @@ class QuantityMachine(Machine):
             return outcome, [what, result.units()]
         return outcome, [what, repr(result) if isinstance(result, (bool, np.bool_)) else None]
 
+    def _poke_c07(self, op):
+        """The caller changes an array in place.  Its own source array: no quantity may notice.
+        The array value() returned: that quantity changes (it is its storage), no other."""
+        i = op["a"] % len(self.pool)
+        e = self.pool[i]
+        before = [snap(x["q"], deep=True) for x in self.pool]
+        allowed = None
+        if op["how"] == "src":
+            if "src" not in e:
+                return "skip", None
+            e["src"][...] = e["src"] * 3.0 + 1.0
+            e["src0"] = e["src"].copy()
+            what = "caller changed the array it had built the quantity from"
+        else:
+            try:
+                v = e["q"].value()
+            except Exception as ex:
+                return "poke_failed", type(ex).__name__
+            if not isinstance(v, np.ndarray) or v.size == 0 or not v.flags.writeable:
+                return "skip", None
+            with np.errstate(all="ignore"):
+                v[...] = v * 3.0 + 1.0
+            allowed = i
+            what = "caller wrote into the array value() returned"
+        self.stats.fault("caller_writes_into_an_array", True)
+        for j, x in enumerate(self.pool):
+            if j == allowed:
+                continue
+            try:
+                after = snap(x["q"], deep=True)
+            except Exception as ex:
+                after = ("unreadable", type(ex).__name__, None)
+            if not same_snap(before[j], after):
+                raise Violation("quantities_share_an_array",
+                                {"what": what, "array_of_member": i, "changed_member": j,
+                                 "before": show(before[j]), "after": show(after)},
+                                signature=f"C07/shared_array/{op['how']}/"
+                                          f"{'self' if i == j else 'other'}")
+        self.nontrivial = True
+        return "poked", op["how"]
+
     def _stale_rebase(self, op):
         from scinumtools.units import UnitEnvironment
         u1, u2 = op["pair"]
@@ -917,7 +979,19 @@ class QuantityMachine(Machine):
             text = UM.text(terms, op["style"])
             v, kw = self._mk(op)
             try:
-                q = Quantity(v, text, **kw)
+                unit = text
+                form = op.get("unit_form")
+                if form == "baseunits" and terms:
+                    unit = Quantity(1, text).baseunits
+                elif form == "quantity" and terms:
+                    unit = Quantity(1, text)
+                elif form == "member" and terms and self.pool:
+                    # the unit object of a live member of the same unit, if there is one
+                    for e_ in self.pool:
+                        if e_["led"] is not None and e_["led"]["text"] == text:
+                            unit = e_["q"].baseunits
+                            break
+                q = Quantity(v, unit, **kw) if terms else Quantity(v, **kw)
             except Exception as e:
                 raise Violation("linear_unit_rejected",
                                 {"unit": text, "error": [type(e).__name__, repr(e.args)[:200]]},
@@ -931,8 +1005,19 @@ class QuantityMachine(Machine):
             if not np.all(np.isfinite(led["B"])) or np.any(
                     (np.abs(led["B"]) > 1e290) | ((np.abs(led["B"]) < 1e-290) & (led["B"] != 0))):
                 return "skip_range", None
-            self._add(q, None, led)
+            k = self._add(q, None, led)
+            if isinstance(v, np.ndarray):
+                self.pool[k]["src"] = v          # the caller keeps its array
             return "new", text
+        if kind == "poke_src":
+            # the caller reuses its buffer: the quantity was built from the numbers, not from
+            # the buffer, so the ledger does not move
+            e = self._slot(op["a"]) if self.pool else None
+            if e is None or "src" not in e:
+                return "skip", None
+            e["src"][...] = e["src"] * 3.0 + 1.0
+            self.stats.fault("caller_writes_into_an_array", True)
+            return "poked", None
         if kind == "custom_scope":
             return self._apply_custom_scope(op)
         if kind == "new_root":
@@ -987,7 +1072,7 @@ class QuantityMachine(Machine):
                     got = ea["q"].value()
             except Exception as ex:
                 raise Violation("same_dimension_conversion_refused",
-                                {"from": la["text"], "to": lb["text"] + " (unit object of another "
+                                {"from": la["text"], "to": str(lb["text"]) + " (unit object of another "
                                  "quantity)", "error": [type(ex).__name__, repr(ex.args)[:200]]},
                                 signature="C04/accept_missing/to_member")
             n = la["chain"] + 1
@@ -1029,8 +1114,7 @@ class QuantityMachine(Machine):
                     after = ("unreadable", type(ex2).__name__, None)
                 if not same_snap(before_a, after):
                     raise Violation("failed_conversion_changed_the_quantity",
-                                    {"from": la["text"], "to": "multiples of " + show(before_b)[0]
-                                     + " " + lb["text"],
+                                    {"from": la["text"], "to": f"multiples of {show(before_b)[0]} {lb['text']}",
                                      "error": [type(ex).__name__, repr(ex.args)[:200]],
                                      "before": show(before_a), "after": show(after)},
                                     signature="C04/failed_to_quantity")
@@ -1054,8 +1138,7 @@ class QuantityMachine(Machine):
                 want = float(want)
             if not self._close(got, want, n * 1e-12):
                 raise Violation("converted_value_wrong",
-                                {"from": la["text"], "to": "multiples of " + show(before_b)[0] + " "
-                                 + lb["text"], "got": safe_repr(got), "want": safe_repr(want)},
+                                {"from": la["text"], "to": f"multiples of {show(before_b)[0]} {lb['text']}", "got": safe_repr(got), "want": safe_repr(want)},
                                 signature="C04/value/to_quantity")
             la.update(B=np.asarray(want) * fv if np.ndim(want) else want * fv,
                       terms=[list(t) for t in lb["terms"]], text=lb["text"], chain=n)
